@@ -17,6 +17,13 @@ type Box struct {
 	Deep  *Box
 }
 
+// Holder mentions Item as the element type of a list only and holds one in an interface.
+type Holder struct {
+	Items []Item
+	Any   any
+	N     int
+}
+
 // Sample returns the i-th sample value of the named type (pointer to it).
 func Sample(name string, i int) any {
 	one := Item{Name: "pb-one", Count: 12, Price: 2.5, On: true, ID: 1}
@@ -27,6 +34,11 @@ func Sample(name string, i int) any {
 			return &one
 		}
 		return &two
+	case "Holder":
+		if i%2 == 0 {
+			return &Holder{Items: []Item{one}, Any: &two, N: 1}
+		}
+		return &Holder{Any: &one}
 	case "Box":
 		if i%2 == 0 {
 			return &Box{Label: "l", M: map[string]Item{"x": one, "y": two}, Item: two, Deep: &Box{Label: "inner", Item: one}}
